@@ -41,7 +41,7 @@ class C05(Prop):
                "aioswitcher.bridge:DatagramParser.get_name", "aioswitcher.bridge:DatagramParser.get_shutter_position",
                "aioswitcher.bridge:DatagramParser.get_thermostat_remote_id", "aioswitcher.bridge:UdpClientProtocol.datagram_received"]
     min_evaluations = {"quick": 40_000, "thorough": 400_000}
-    budget_s = {"quick": 60, "thorough": 900}
+    budget_s = {"quick": 300, "thorough": 900}
 
     def selftest(self):
         broadcast_captures()
